@@ -67,6 +67,20 @@ def undeclared_visitor_rule(ctx: Ctx, rid: str) -> None:
     ok = len(adds) == 1 and {g for g, pol in astq.guard_texts(vn, adds[0]) if pol} == {"node.ctx == 'load' and node.name in self.names"}
     ctx.check(ok, "visit_Name:records", "compiler:UndeclaredNameVisitor.visit_Name", "records every load of a watched name", "visit_Name must record every load of a watched name, under no further condition", ci.loc(vn))
     ctx.floor("UndeclaredNameVisitor methods besides visit_Name", n, 1)
+    # when is a loop compiled with a LoopContext?  recursive, `loop` referenced anywhere in the
+    # body, or a scoped block anywhere below (its function receives the loop's variables
+    # through the derived context, so `loop` must exist even if only the block - or a child
+    # template's override - mentions it).  "anywhere" = a deep search, not the direct children.
+    vf = repo.func("compiler:CodeGenerator.visit_For")
+    ext = [a for a in ast.walk(vf.node) if isinstance(a, ast.Assign) and ast.unparse(a.targets[0]) == "extended_loop"]
+    ctx.need(len(ext) == 1 and isinstance(ext[0].value, ast.BoolOp) and isinstance(ext[0].value.op, ast.Or), "extended_loop is no longer a disjunction assigned once in visit_For")
+    disj = [ast.unparse(v) for v in ext[0].value.values]
+    ctx.check("node.recursive" in disj, "extended:recursive", "compiler:CodeGenerator.visit_For", "recursive loops are extended", f"extended_loop lost the `node.recursive` alternative: {disj}", vf.loc(ext[0]))
+    ctx.check(any(d.startswith("'loop' in find_undeclared(") for d in disj), "extended:reference", "compiler:CodeGenerator.visit_For", "loops whose body mentions `loop` are extended", f"extended_loop lost the find_undeclared alternative: {disj}", vf.loc(ext[0]))
+    gens = [g for v in ext[0].value.values for g in ast.walk(v) if isinstance(g, ast.GeneratorExp)]
+    deep = [g for g in gens if any(isinstance(c, ast.Call) and ast.unparse(c.func) == "node.find_all" and "nodes.Block" in ast.unparse(c) for c in ast.walk(g.generators[0].iter))]
+    ctx.check(len(deep) == 1 and "scoped" in ast.unparse(deep[0].elt), "extended:scoped-block-deep", "compiler:CodeGenerator.visit_For", "scoped blocks are searched in the whole subtree",
+              f"extended_loop must hold when a scoped block occurs anywhere below the loop (node.find_all(nodes.Block)); found {[ast.unparse(g)[:80] for g in gens]}: a scoped block nested in an if / with inside the loop body then sees no `loop` (UndefinedError) or the enclosing loop's", vf.loc(ext[0]))
     # callers hand over complete bodies
     cg = repo.cls("compiler:CodeGenerator")
     want = {"macro_body": "node.body", "visit_Template": "node.body", "visit_For": "node.iter_child_nodes(only=('body',))"}
